@@ -1155,6 +1155,48 @@ func (c *Ctx) normalizeTransfer() {
 // only for branches of depth > 1.
 func (c *Ctx) tbeAccumulation(fi *FuncInfo) {
 	info := fi.Pkg.TypesInfo
+	// the sum of transfer distances starts from nothing: before the loop over the bootstrap trees
+	// every branch of the reference tree has its support set to the 'absent' sentinel,
+	// unconditionally (IncrementSupport starts from 0 only there); a reference tree that already
+	// carries supports (aLRT, an earlier run) would otherwise have them added to the sum
+	{
+		okReset := false
+		var at token.Pos = fi.Decl.Pos()
+		var bootLoop *ast.RangeStmt
+		ast.Inspect(fi.Decl.Body, func(n ast.Node) bool {
+			if rs, ok := n.(*ast.RangeStmt); ok && bootLoop == nil {
+				if _, isChan := info.TypeOf(rs.X).Underlying().(*types.Chan); isChan {
+					bootLoop = rs
+				}
+			}
+			return true
+		})
+		for _, sc := range c.setterCalls(info, fi.Decl.Body, "support", nil) {
+			tv, isC := info.Types[sc.arg]
+			if !isC || tv.Value == nil || bootLoop == nil || sc.call.Pos() > bootLoop.Pos() {
+				continue
+			}
+			isSentinel := false
+			switch a := unparen(sc.arg).(type) {
+			case *ast.SelectorExpr:
+				isSentinel = a.Sel.Name == "NIL_SUPPORT"
+			case *ast.Ident:
+				isSentinel = a.Name == "NIL_SUPPORT"
+			}
+			if !isSentinel {
+				continue
+			}
+			// on the current element of a loop over the reference branches, unconditionally
+			if sel, ok := unparen(sc.call.Fun).(*ast.SelectorExpr); ok {
+				if _, isElem := c.loopElement(info, fi.Decl.Body, sc.call, sel.X, nil); isElem {
+					if conds, okc := c.pathConds(info, fi.Decl.Body, sc.call, true); okc && len(conds) == 0 {
+						okReset, at = true, sc.call.Pos()
+					}
+				}
+			}
+		}
+		c.Check(okReset, "LF", "support.TBE/supports-reset-before-accumulating", at, "every reference branch's support is reset to 'absent' before the bootstrap loop", "TBE does not reset the support of every reference branch to the 'absent' value before it starts adding transfer distances: supports already present on the reference tree are added to the sum").Clause = "transfer support = 1 - (mean transfer distance)/(depth-1)"
+	}
 	// the accumulator itself: IncrementSupport adds its argument on every path (the first call, which
 	// finds the support absent, counts too)
 	if inc := c.Func("tree", "Edge", "IncrementSupport"); inc != nil {
